@@ -135,6 +135,11 @@ def run_dag(ctx, n, tiny):
             args, info = gen2.rand_err_args(rng, "mpe", tiny=tiny, force_int=True if tiny else None, nmax=None if tiny else rng.choice([3, 4, 5]))
             exact = args["weight_type"] == int
             base = dict(args, solver_options=dict(errlib.SOLVER))
+            npspec = errlib.numpy_spec(ctx.rng(stream + "-np", i))
+            if npspec:
+                cur["args"] = dict(base, k=None)
+                b0 = errlib.attach_numpy(ctx, "kMinPathError", dict(base, k=None), {x: y for x, y in npspec.items() if x != "k"})
+                base = {x: y for x, y in b0.items() if x != "k"}
             given = args.get("solution_weights_superset")
             # the model's own covering number (k=None)
             try:
@@ -169,6 +174,10 @@ def run_dag(ctx, n, tiny):
                     args["solution_weights_superset"] = given; base["solution_weights_superset"] = given
             a = dict(base, k=k)
             cur["args"] = a
+            if npspec and "k" in npspec and "numpy_types" in a:
+                a["numpy_types"] = dict(a["numpy_types"], k=npspec["k"]); cur["args"] = a
+                a = errlib.numpy_k_check(ctx, "kMinPathError", a)
+                cur["args"] = a
             lpdump.reset()
             try:
                 m = fp.kMinPathError(**errlib.clean_args(a))
@@ -243,6 +252,11 @@ def run_cyclic(ctx, n):
             rng = ctx.rng("mpe-cyc", i)
             args, is_int = c07.rand_cyclic_err(rng)
             base = dict(args, solver_options=dict(errlib.SOLVER))
+            npspec = errlib.numpy_spec(ctx.rng("mpe-cyc-np", i))
+            if npspec:
+                cur["args"] = dict(base, k=None)
+                b0 = errlib.attach_numpy(ctx, "kMinPathErrorCycles", dict(base, k=None), {x: y for x, y in npspec.items() if x != "k"})
+                base = {x: y for x, y in b0.items() if x != "k"}
             try:
                 m0 = fp.kMinPathErrorCycles(**errlib.clean_args(dict(base, k=None)))
             except (ValueError, OverflowError) as e:
@@ -253,6 +267,10 @@ def run_cyclic(ctx, n):
             k = rng.choice([None, width, width + 1])
             a = dict(base, k=k)
             cur["args"] = a
+            if npspec and "k" in npspec and "numpy_types" in a:
+                a["numpy_types"] = dict(a["numpy_types"], k=npspec["k"]); cur["args"] = a
+                a = errlib.numpy_k_check(ctx, "kMinPathErrorCycles", a)
+                cur["args"] = a
             try:
                 m = fp.kMinPathErrorCycles(**errlib.clean_args(a)); m.solve()
             except Exception as e:
@@ -278,10 +296,12 @@ def run_family(ctx):
     """deterministic cyclic families (errlib.cyclic_families): feasible for every k >= width under the repetition caps of the
     code as it is, optimum known in closed form"""
     import flowpaths as fp
-    for fam in errlib.cyclic_families():
+    for fi, fam in enumerate(errlib.cyclic_families()):
         for k in fam["k_list"]:
             def _one(cur):
                 args = dict(G=fam["G"], flow_attr="flow", k=k, weight_type=fam["weight_type"], solver_options=dict(errlib.SOLVER))
+                cur["args"] = args
+                args = errlib.attach_numpy(ctx, "kMinPathErrorCycles", args, errlib.NP_ROT[(fi + 1) % len(errlib.NP_ROT)])
                 cur["args"] = args
                 rep = {"class": "kMinPathErrorCycles", "family": fam["name"], "args": errlib.describe(args), "closed_form_optimum": str(fam["mpe_opt"])}
                 try:
@@ -316,9 +336,11 @@ def run_factor_family(ctx):
     decomposition -- optimum total slack 0 with all slacks 0, so the open factor-bound findings do not apply; every instance must be
     solved with objective 0, k=None must pick 3, and the returned solution must pass the full E2 recomputation"""
     import flowpaths as fp
-    for fam in errlib.length_factor_family():
+    for fi, fam in enumerate(errlib.length_factor_family()):
         def _one(cur):
             a = dict(fam["args"], solver_options=dict(errlib.SOLVER))
+            cur["args"] = a
+            a = errlib.attach_numpy(ctx, "kMinPathError", a, errlib.NP_ROT[fi % len(errlib.NP_ROT)])
             cur["args"] = a
             rep = {"class": "kMinPathError", "family": fam["name"], "args": errlib.describe(a), "closed_form_optimum": "0"}
             try:
